@@ -81,6 +81,12 @@ class Exec(Engine):
         if isinstance(f, SFunc):
             yield from s.inline(f, av, kw, p, n)
             return
+        if isinstance(f, SConc) and callable(f.v) and getattr(f.v, "__name__", "") == "fullmatch" and hasattr(getattr(f.v, "__self__", None), "pattern") and len(av) == 1 and isinstance(av[0], (SStr, SConc)):
+            from .strings import regex_to_z3
+
+            a = av[0].t if isinstance(av[0], SStr) else z3.StringVal(av[0].v)
+            yield SBool(z3.InRe(a, regex_to_z3(f.v.__self__.pattern))), p
+            return
         if isinstance(f, SConc) and callable(f.v):
             conc = all(isinstance(a, SConc) for a in av) and all(isinstance(a, SConc) for a in kw.values())
             name = getattr(f.v, "__qualname__", getattr(f.v, "__name__", repr(f.v)))
@@ -174,6 +180,12 @@ class Exec(Engine):
                 if q is not None and o.items:
                     s.rebind(n, q, STup(o.items[:-1], "list"))
                     yield o.items[-1], q
+                return
+            if attr == "append" and not hasattr(av[0], "kind"):
+                s.abstracted.add("list of records/tuples with symbolic length (opaque; appends are logged)")
+                p.ghost.setdefault("appends", []).append((n.lineno, ast.unparse(n.func.value), av[0]))
+                s.rebind(n, p, SObj(fresh("opaque_list", Obj)))
+                yield SConc(None), p
                 return
             sq = s.as_seq(o, p, ek=getattr(av[0], "kind", None) if av else None)
             if attr == "append":
@@ -674,6 +686,10 @@ class Exec(Engine):
                         if isinstance(inner, ast.Nonlocal):
                             out |= set(inner.names)
                     out |= {x for x in s.assigned_names(f.node.body, None) if any(isinstance(i, ast.Nonlocal) and x in i.names for i in ast.walk(f.node))}
+                    loc = {a.arg for a in f.node.args.args} | {nn.id for nn in ast.walk(f.node) if isinstance(nn, ast.Name) and isinstance(nn.ctx, ast.Store)}
+                    for inner in ast.walk(f.node):
+                        if isinstance(inner, ast.Call) and isinstance(inner.func, ast.Attribute) and inner.func.attr in MUTATORS and isinstance(inner.func.value, ast.Name) and inner.func.value.id not in loc:
+                            out.add(inner.func.value.id)
             if isinstance(st, (ast.ListComp, ast.GeneratorExp, ast.SetComp, ast.DictComp)):
                 pass
         return out
@@ -718,6 +734,12 @@ class Exec(Engine):
                     f[nme] = nv
                     break
 
+    def havoc_ghost(s, p):
+        for name in getattr(s, "ghost_havoc", ()):
+            v = p.ghost.get(name)
+            if v is not None and z3.is_expr(v):
+                p.ghost[name] = z3.FreshConst(v.sort(), name)
+
     def st_While(s, st, p):
         ordn = s.loop_counter
         s.loop_counter += 1
@@ -731,6 +753,7 @@ class Exec(Engine):
         mod = s.assigned_names(st.body, p)
         q = p.fork()
         s.havoc(mod, q)
+        s.havoc_ghost(q)
         q.pc.append(inv(s, q))
         for c, b in s.ev(st.test, q.fork()):
             body = b
@@ -813,6 +836,8 @@ class Exec(Engine):
                 yield "items", list(it.items), p1
             elif isinstance(it, SDict):
                 yield "items", [s.lift(k) for k in it.d], p1
+            elif isinstance(it, SConc) and isinstance(it.v, (list, tuple, range, str, dict)):
+                yield "items", [s.lift(k) for k in it.v], p1
             else:
                 sq = s.as_seq(it, p1)
                 nc = z3.simplify(sq.n)
@@ -869,6 +894,7 @@ class Exec(Engine):
         mod = s.assigned_names(st.body, p) | {nn.id for nn in ast.walk(st.target) if isinstance(nn, ast.Name)}
         q = p.fork()
         s.havoc(mod, q)
+        s.havoc_ghost(q)
         i = fresh("it")
         body = q.fork()
         body.pc.append(z3.And(0 <= i, i < n))
